@@ -11,28 +11,42 @@ Section EncoderProofs.
 Variables V RT CT ER WR : Type.
 Variable rt0 : RT.
 Variable ct0 : CT.
+Variable vr : variant.     (* every lemma holds for every variant unless it names a flag *)
 Variable ser : bool -> bool -> RT -> CT -> V -> ser_res RT CT ER.
 
 Notation enc := (enc RT CT ER WR).
 Notation new_enc := (new_enc RT CT ER WR rt0 ct0).
-Notation enc_step := (enc_step V RT CT ER WR rt0 ct0 ser).
-Notation enc_run := (enc_run V RT CT ER WR rt0 ct0 ser).
-Notation free_enc := (free_enc RT CT ER WR rt0 ct0).
-Notation enc_fresh_equiv := (enc_fresh_equiv V RT CT ER WR rt0 ct0 ser).
+Notation enc_step := (enc_step V RT CT ER WR rt0 ct0 vr ser).
+Notation enc_run := (enc_run V RT CT ER WR rt0 ct0 vr ser).
+Notation free_enc := (free_enc RT CT ER WR rt0 ct0 vr).
+Notation enc_fresh_equiv := (enc_fresh_equiv V RT CT ER WR rt0 ct0 vr ser).
 Notation eget := (eget RT CT ER WR rt0 ct0).
-Notation esession_run := (esession_run V RT CT ER WR rt0 ct0 ser).
-Notation esessions_run := (esessions_run V RT CT ER WR rt0 ct0 ser).
+Notation esession_run := (esession_run V RT CT ER WR rt0 ct0 vr ser).
+Notation esessions_run := (esessions_run V RT CT ER WR rt0 ct0 vr ser).
 
-(* exactly what survives FreeEncoder: the offset and the writer, nothing else *)
+(* exactly what survives FreeEncoder: the offset and the writer (unless repaired), nothing else *)
 Lemma free_enc_char (s : enc) :
-  free_enc s = {| e_buf := []; e_off := e_off s; e_simple := false; e_refer := rt0; e_cls := ct0;
-                  e_writer := e_writer s; e_err := None |}.
+  free_enc s = {| e_buf := []; e_off := if v_resetbuffer_off vr then 0 else e_off s; e_simple := false;
+                  e_refer := rt0; e_cls := ct0;
+                  e_writer := if v_free_writer vr then None else e_writer s; e_err := None |}.
 Proof. reflexivity. Qed.
 
 Definition clean (s : enc) : Prop := e_off s = 0 /\ e_writer s = None.
 
 Lemma free_enc_is_new (s : enc) : clean s -> free_enc s = new_enc.
-Proof. intros [Ho Hw]. rewrite free_enc_char, Ho, Hw. reflexivity. Qed.
+Proof.
+  intros [Ho Hw]. rewrite free_enc_char, Ho, Hw.
+  destruct (v_resetbuffer_off vr), (v_free_writer vr); reflexivity.
+Qed.
+
+(* with both repairs the guard is not needed *)
+Lemma free_enc_fixed_is_new (s : enc) :
+  v_resetbuffer_off vr = true -> v_free_writer vr = true -> free_enc s = new_enc.
+Proof. intros H1 H2. rewrite free_enc_char, H1, H2. reflexivity. Qed.
+
+Lemma free_enc_fresh_fixed (s : enc) :
+  v_resetbuffer_off vr = true -> v_free_writer vr = true -> enc_fresh_equiv (free_enc s).
+Proof. intros H1 H2 ops. rewrite (free_enc_fixed_is_new s H1 H2). reflexivity. Qed.
 
 Lemma free_enc_fresh_partial (s : enc) : clean s -> enc_fresh_equiv (free_enc s).
 Proof. intros H ops. rewrite (free_enc_is_new s H). reflexivity. Qed.
@@ -53,7 +67,8 @@ Lemma lib_step_clean (s : enc) (o : eop V WR) :
 Proof.
   intros Hl Hc. destruct o; cbn [Pool.enc_step fst]; try discriminate;
     try apply flush_clean_pres; try exact Hc;
-    destruct Hc as [Ho Hw]; split; cbn; assumption.
+    destruct Hc as [Ho Hw]; split; cbn; try assumption.
+  destruct (v_resetbuffer_off vr); [reflexivity|assumption].
 Qed.
 
 Lemma lib_run_clean : forall (ops : list (eop V WR)) (s : enc),
@@ -110,6 +125,27 @@ Proof.
     destruct IH as [IH1 IH2]. split; [exact IH1|]. cbn [map]. rewrite E1. cbn [snd]. f_equal. exact IH2.
 Qed.
 
+(* with both repairs: ARBITRARY operations in every use, Writer included *)
+Lemma all_sessions_fresh_fixed :
+  v_resetbuffer_off vr = true -> v_free_writer vr = true ->
+  forall (l : list (esession V WR)) (p : epool RT CT ER WR),
+  Forall (fun e => e = new_enc) p ->
+  Forall (fun e => e = new_enc) (fst (esessions_run p l)) /\
+  snd (esessions_run p l) = map (fun ss => snd (enc_run new_enc (es_ops ss))) l.
+Proof.
+  intros H1 H2. induction l as [|ss r IH]; intros p Hp; cbn [Pool.esessions_run].
+  - split; [exact Hp|reflexivity].
+  - unfold Pool.esession_run.
+    destruct (eget_all_new p (es_choice ss) Hp) as [Hg Hrest].
+    destruct (eget p (es_choice ss)) as [e p1]. cbn [fst snd] in Hg, Hrest. subst e.
+    destruct (enc_run new_enc (es_ops ss)) as [e1 obs] eqn:E1.
+    assert (Hp1 : Forall (fun e => e = new_enc) (free_enc e1 :: p1)).
+    { constructor; [apply free_enc_fixed_is_new; assumption|exact Hrest]. }
+    specialize (IH (free_enc e1 :: p1) Hp1).
+    destruct (esessions_run (free_enc e1 :: p1) r) as [p2 all]. cbn [fst snd] in *.
+    destruct IH as [IH1 IH2]. split; [exact IH1|]. cbn [map]. rewrite E1. cbn [snd]. f_equal. exact IH2.
+Qed.
+
 Lemma marshal_ops_lib simple (v : V) : forallb (@lib_eop V WR) (marshal_ops simple v) = true.
 Proof. reflexivity. Qed.
 
@@ -122,16 +158,19 @@ Section DecoderProofs.
 Variables DT DV DR DC ER : Type.
 Variable dr0 : DR.
 Variable dc0 : DC.
+Variable vr : variant.
 Variable des : bool -> dopts -> DR -> DC -> option ER -> list byte -> DT -> des_res DV DR DC ER.
 
 Notation dec := (dec DR DC ER).
 Notation new_dec := (new_dec DR DC ER dr0 dc0).
-Notation dec_step := (dec_step DT DV DR DC ER dr0 dc0 des).
-Notation dec_run := (dec_run DT DV DR DC ER dr0 dc0 des).
-Notation free_dec := (free_dec DR DC ER dr0 dc0).
-Notation dec_fresh_equiv := (dec_fresh_equiv DT DV DR DC ER dr0 dc0 des).
+Notation dec_step := (dec_step DT DV DR DC ER dr0 dc0 vr des).
+Notation dec_run := (dec_run DT DV DR DC ER dr0 dc0 vr des).
+Notation free_dec := (free_dec DR DC ER dr0 dc0 vr).
+Notation dec_fresh_equiv := (dec_fresh_equiv DT DV DR DC ER dr0 dc0 vr des).
 Notation dget := (dget DR DC ER dr0 dc0).
-Notation dsessions_run := (dsessions_run DT DV DR DC ER dr0 dc0 des).
+Notation dsessions_run := (dsessions_run DT DV DR DC ER dr0 dc0 vr des).
+Notation dset_simple := (Pool.dset_simple DR DC ER dr0 dc0 vr).
+Notation dreset := (Pool.dreset DR DC ER dr0 dc0 vr).
 
 Definition nonuser (b : dbuf) : Prop := norm_buf b = BufNil.
 
@@ -182,7 +221,8 @@ Proof.
   - unfold Pool.dec_same; cbn; rewrite ?Hi, ?Hf, ?Hs, ?Hr, ?Hc, ?He, ?Ho; repeat split; try reflexivity; exact Hb.
   - unfold Pool.dec_same; cbn; rewrite ?Hi, ?Hf, ?Hs, ?Hr, ?Hc, ?He, ?Ho; repeat split; try reflexivity; exact Hb.
   - unfold Pool.dec_same; cbn; rewrite ?Hi, ?Hf, ?Hs, ?Hr, ?Hc, ?He, ?Ho; repeat split; reflexivity.
-  - unfold Pool.dec_same; cbn; rewrite ?Hi, ?Hf, ?Hs, ?Hr, ?Hc, ?He, ?Ho; repeat split; try reflexivity; exact Hb.
+  - unfold Pool.dec_same; cbn; rewrite ?Hi, ?Hf, ?Hs, ?Hr, ?Hc, ?He, ?Ho; repeat split; try reflexivity.
+    destruct (v_resetreader_drops vr && negb (d_from_reader b)); [reflexivity|exact Hb].
   - unfold Pool.dec_same; cbn; rewrite ?Hi, ?Hf, ?Hs, ?Hr, ?Hc, ?He, ?Ho; repeat split; try reflexivity.
     destruct (d_from_reader b); [exact Hb|reflexivity].
   - unfold Pool.dec_same; cbn; rewrite ?Hi, ?Hf, ?Hs, ?Hr, ?Hc, ?He, ?Ho; repeat split; try reflexivity; exact Hb.
@@ -214,6 +254,7 @@ Proof.
   intros Ho Hn. destruct o; cbn [Pool.dec_step fst]; try exact Hn; try discriminate.
   - unfold Pool.ddecode. destruct (dhangs DR DC ER s); cbn [fst d_buf]; [exact Hn|].
     destruct (d_from_reader s); [|exact Hn]. unfold nonuser in *. destruct (d_buf s); cbn in *; try reflexivity; exact Hn.
+  - cbn [d_buf]. destruct (v_resetreader_drops vr && negb (d_from_reader s)); [reflexivity|exact Hn].
   - cbn. unfold nonuser in *. destruct (d_from_reader s); [exact Hn|reflexivity].
 Qed.
 
@@ -292,31 +333,84 @@ Proof.
     destruct IH as [IH1 IH2]. split; [exact IH1|]. cbn [map]. f_equal; assumption.
 Qed.
 
+(* with the ResetReader repair the guard holds by itself: "a reader is attached => the buffer is
+   not a caller's slice" is an invariant of every operation *)
+Definition buf_inv (s : dec) : Prop := d_from_reader s = true -> nonuser (d_buf s).
+
+Lemma step_buf_inv (s : dec) (o : dop DT) :
+  v_resetreader_drops vr = true -> buf_inv s -> buf_inv (fst (dec_step s o)).
+Proof.
+  intros Hv Hi. destruct o; cbn [Pool.dec_step fst]; try exact Hi.
+  - unfold Pool.ddecode. destruct (dhangs DR DC ER s); cbn [fst]; [exact Hi|].
+    intros E. cbn [d_from_reader d_buf] in *. specialize (Hi E). rewrite E.
+    unfold nonuser in *. destruct (d_buf s); cbn in *; try reflexivity; exact Hi.
+  - intros E. cbn in E. discriminate.
+  - intros _. cbn [d_buf]. rewrite Hv. destruct (d_from_reader s) eqn:E; cbn [negb andb]; [apply Hi; exact E|reflexivity].
+  - intros E. cbn in E. discriminate.
+Qed.
+
+Lemma run_buf_inv : forall (ops : list (dop DT)) (s : dec),
+  v_resetreader_drops vr = true -> buf_inv s -> buf_inv (fst (dec_run s ops)).
+Proof.
+  induction ops as [|o r IH]; intros s Hv Hi; cbn [Pool.dec_run]; [exact Hi|].
+  pose proof (step_buf_inv s o Hv Hi) as H1. destruct (dec_step s o) as [s1 ob]. cbn [fst] in H1.
+  specialize (IH s1 Hv H1). destruct (dec_run s1 r) as [s2 obs]. exact IH.
+Qed.
+
+Lemma all_dsessions_fresh_fixed :
+  v_resetreader_drops vr = true ->
+  forall (l : list (dsession DT)) (p : dpool DR DC ER),
+  Forall (fun e => dec_same e new_dec) p ->
+  Forall (fun e => dec_same e new_dec) (fst (dsessions_run p l)) /\
+  snd (dsessions_run p l) = map (fun ss => snd (dec_run new_dec (dss_ops ss))) l.
+Proof.
+  intros Hv. induction l as [|ss r IH]; intros p Hp; cbn [Pool.dsessions_run].
+  - split; [exact Hp|reflexivity].
+  - unfold Pool.dsession_run.
+    destruct (dget_all_same p (dss_choice ss) Hp) as [Hg Hrest].
+    destruct (dget p (dss_choice ss)) as [d p1]. cbn [fst snd] in Hg, Hrest.
+    destruct (dec_same_run (dss_ops ss) d new_dec Hg) as [Hobs _].
+    destruct (same_new_nonuser d Hg) as [Hnu Hnr].
+    assert (Hinv : buf_inv d) by (intros _; exact Hnu).
+    pose proof (run_buf_inv (dss_ops ss) d Hv Hinv) as Hguard.
+    destruct (dec_run d (dss_ops ss)) as [d1 obs] eqn:E1. cbn [fst snd] in Hobs, Hguard.
+    assert (Hp1 : Forall (fun e => dec_same e new_dec) (free_dec d1 :: p1)).
+    { constructor; [apply free_dec_same_new; exact Hguard|exact Hrest]. }
+    specialize (IH (free_dec d1 :: p1) Hp1).
+    destruct (dsessions_run (free_dec d1 :: p1) r) as [p2 all]. cbn [fst snd] in *.
+    destruct IH as [IH1 IH2]. split; [exact IH1|]. cbn [map]. f_equal; assumption.
+Qed.
+
 (* the mode switch: Simple(false) always empties both tables; Simple(true) empties the class
-   list but KEEPS the reference list *)
+   list but (as found) KEEPS the reference list *)
 Lemma dsimple_false_resets (s : dec) :
-  d_refer (dset_simple DR DC ER dr0 dc0 false s) = dr0 /\
-  d_cls (dset_simple DR DC ER dr0 dc0 false s) = dc0.
+  d_refer (dset_simple false s) = dr0 /\
+  d_cls (dset_simple false s) = dc0.
 Proof. split; reflexivity. Qed.
 
 Lemma dsimple_true_keeps_refer (s : dec) :
-  d_refer (dset_simple DR DC ER dr0 dc0 true s) = d_refer s.
-Proof. reflexivity. Qed.
+  v_reset_refer_always vr = false -> d_refer (dset_simple true s) = d_refer s.
+Proof. intros H. cbn. rewrite H. reflexivity. Qed.
+
+Lemma dsimple_resets_fixed (b : bool) (s : dec) :
+  v_reset_refer_always vr = true -> d_refer (dset_simple b s) = dr0 /\ d_cls (dset_simple b s) = dc0.
+Proof. intros H. cbn. rewrite H. destruct b; split; reflexivity. Qed.
 
 (* ... so a reused decoder switched with Simple(true) is as good as NewDecoder exactly when its
    reference list was empty; Reset() in reference mode (as the rpc codecs do before switching) suffices *)
 Lemma dsimple_true_partial (s : dec) (input : list byte) :
   d_refer s = dr0 -> d_err s = None -> d_opts s = opts0 ->
-  dec_same (fst (dec_step (dset_simple DR DC ER dr0 dc0 true s) (DResetBytes input)))
+  dec_same (fst (dec_step (dset_simple true s) (DResetBytes input)))
            (new_decoder DR DC ER dr0 dc0 input).
 Proof.
-  intros Hr He Ho. unfold Pool.dec_same. cbn. rewrite Hr, He, Ho. repeat split; reflexivity.
+  intros Hr He Ho. unfold Pool.dec_same. cbn. rewrite Hr, He, Ho.
+  destruct (v_reset_refer_always vr); repeat split; reflexivity.
 Qed.
 
 Lemma dreset_then_simple_true (s : dec) :
   d_simple s = false ->
-  d_refer (dset_simple DR DC ER dr0 dc0 true (dreset DR DC ER dr0 dc0 s)) = dr0.
-Proof. intros H. cbn. rewrite H. reflexivity. Qed.
+  d_refer (dset_simple true (dreset s)) = dr0.
+Proof. intros H. cbn. rewrite H. cbn. destruct (v_reset_refer_always vr); reflexivity. Qed.
 
 End DecoderProofs.
 
@@ -450,7 +544,7 @@ Proof. destruct a, fast; reflexivity. Qed.
 From Coq Require Import String.
 Definition bs (s : string) : bytes := list_byte_of_string s.
 
-Notation c_fresh_equiv := (enc_fresh_equiv val crefer ccls cerr N crefer0 ccls0 cser).
+Notation c_fresh_equiv := (enc_fresh_equiv val crefer ccls cerr N crefer0 ccls0 as_found cser).
 
 (* pooled path: a user sets the exported Writer on a pooled encoder; after FreeEncoder the next
    user of that encoder sends the tail of ITS data to the previous user's writer *)
@@ -503,7 +597,7 @@ Proof. split; vm_compute; reflexivity. Qed.
 (* pooled path: a user gives a pooled decoder a slice (ResetBytes) and then a reader (ResetReader);
    ResetBuffer keeps the buffer when a reader is attached, so the pool now holds a decoder whose
    read buffer is that user's slice: the NEXT user's input is read into it *)
-Notation c_dec_fresh_equiv := (dec_fresh_equiv unit dval drefs unit cerr [] tt cdes).
+Notation c_dec_fresh_equiv := (dec_fresh_equiv unit dval drefs unit cerr [] tt as_found cdes).
 
 Definition dhist_buf : list (dop unit) :=
   [DResetBytes (bs "i42;xxxxxxxxxxxxxxxx"); DDecode tt; DResetReader (bs "i7;"); DDecode tt].
